@@ -33,12 +33,17 @@ EXTRA = {
     "C01": "Further stages: twins; files (an experiment of two BAM files against each file alone, distinct or coinciding "
            "read names); crowded_end (many isoforms with a donor shortly before the end of the read's isoform); isoforms "
            "with A-rich 3' ends and short T-rich 5' exons; far reads with an exon outside the gene.",
-    "C02": "Stage split runs loci cut into several processing regions, with the regions read from the debug log.",
+    "C02": "Stage split runs loci cut into several processing regions, with the regions read from the debug log; "
+           "--high_memory (40%) and reads with a worse secondary alignment inside an intron; a read reported once, for "
+           "one gene, must not carry an ambiguous gene-level type.",
     "C03": "Templates: a gene with two separate read clusters and a nested gene between them, references with CDS "
-           "records (exon numbers 1..n), lower-case gene symbols.",
-    "C04": "Template: a gene with two separate read clusters and a nested gene between them.",
+           "records (exon numbers 1..n), lower-case gene symbols, a reference transcript with an exon of one base.",
+    "C04": "Template: a gene with two separate read clusters and a nested gene between them; split loci whose "
+           "straddling gene is annotated with another donor site.",
     "C05": "Further structures: placed unmapped records, multi-mapped reads outside genes (the primary alignment is the "
-           "one reported), a small cluster ending in the bin in which a split cluster begins, one-base alignments.",
+           "one reported), a small cluster ending in the bin in which a split cluster begins, one-base alignments; "
+           "relation: the same records with every MAPQ < 5 raised to 60 decide which low-MAPQ reads are consistent and "
+           "therefore must be reported.",
     "C08": "A further relation re-runs the input without the alignments that lost: all outputs must be the same.",
     "C09": "The transcript-model tables are checked for partition, matrix/linear agreement and against "
            "transcript_model_reads.tsv; the headers of the grouped TPM tables must equal those of the count tables; "
@@ -46,22 +51,31 @@ EXTRA = {
     "C10": "Dimensions: repeated / numeric / NA-like names and ids, ids with quotes, numeric labels, per-experiment "
            "short-read files (YAML key illumina bam); 35% of the joint runs keep their saved read assignments and "
            "one more run is restarted from all of them (--read_assignments): its ungrouped tables, assignments and "
-           "models per experiment must equal those of the joint run.",
+           "models per experiment must equal those of the joint run; --high_memory (30%).",
     "C11": "Stage corners holds parametrised noise-free templates (event order, micro-introns, threaded ends, adjacent "
            "clusters, similar novel isoforms, overlapping unspliced transcripts, ragged polyA ends, introns on both "
            "sides of a single-exon gene, a read-through tip, unspliced tailed reads that begin inside the last intron of "
-           "a spliced transcript); stage contig_start has reads aligned from the first bases "
+           "a spliced transcript, reads of a novel isoform that stop at two places inside the terminal exon it shares with "
+           "an annotated isoform); stage contig_start has reads aligned from the first bases "
            "of a contig.",
     "C12": "Further variants: per-contig BAM files with pruned headers, placed unmapped records, the reference as a "
            "soft-masked copy; history steps that replace the annotation by a file with an earlier time stamp; stage "
            "tie_weights puts fractional weights at rounding borders.",
+    "C13": "Explicit --delta values (0, 3, 9) on top of the matching-strategy presets.",
     "C14": "Tails aligned as terminal exons of their own; the short reads given as one file or split into two files in "
            "another order must give the same result.",
     "C16": "Hard clips outside the soft clips must not change anything; the tail position may lie beyond the retained "
-           "exon by the transcript bases of the removed exons only.",
+           "exon by the transcript bases of the removed exons only; chains of 1-4 exons of a few A/T bases between a "
+           "T-rich head and an A-rich tail.",
     "C17": "Templates: the extended annotation file itself (with CDS records) as reference of a second run, "
            "GENCODE-style per-transcript ids, a gene copied to another contig at identical coordinates, a gene with two "
            "read clusters and a nested gene.",
+    "C19": "Stage gene_info builds GeneInfo from an in-memory annotation database with the pipeline's tolerance "
+           "(delta 0..12) for genes whose isoforms differ by splice-site shifts around that tolerance, and compares "
+           "the intron / exon / split-exon profiles of every isoform with the definition; stage profiles_mid takes the "
+           "known features from two near-identical isoforms.",
+    "C20": "The smoke stage also starts runs that share --genedb_output and use annotations of one file name in "
+           "different folders.",
     "C18": "Annotations that carry Canonical attributes of their own (every occurrence is checked); clause for the "
            "reporting level only_canonical.",
 }
